@@ -16,20 +16,17 @@ fn any_p(min_exp: i32) -> f64 {
     p
 }
 
-/// BloomFilter::with_properties(n, p): at least one hash function and one bit; insert/query do not panic.
-harness!(sizing_bloom_usable, unwind 8, ln, {
+/// BloomFilter::with_properties(n, p): at least one hash function and one bit for every admissible (n, p).
+/// (That insert/query do not panic on any filter with k >= 1 and m >= 1 is what the Bloom step harnesses of C01
+/// establish from arbitrary states; here the hasher is the constant-zero one so that only the sizing arithmetic is symbolic.)
+harness!(sizing_bloom_usable, unwind 12, ln, {
     let n = any_usize();
     asm!(n >= 1 && n <= 16);
     let p = any_p(-8);
-    let bh = any_iterbh();
-    let mut f = BloomFilter::<Elem, IterBH>::with_properties_and_hash(n, p, bh);
+    let f = BloomFilter::<Elem, IterBH>::with_properties_and_hash(n, p, IterBH { salt: 0 });
     chk!("at_least_one_hash_function", f.k() >= 1);
     chk!("at_least_one_bit", f.m() >= 1);
     chk!("k_bounded", f.k() <= 9);
-    let x = any_elem();
-    let r = f.insert(&x);
-    chk!("insert_ok", r.is_ok());
-    chk!("query_after_insert", f.query(&x));
     cov!("p_above_half", p > 0.5);
     cov!("n1_p09", n == 1 && p > 0.9);
     cov!("p_small", p < 0.01 && n == 16);
